@@ -21,9 +21,16 @@ Check(e) ==
   /\ Chk(p.ok, "filter of the run does not parse in the model")
   /\ Chk(e.results = <<x>>, <<"thread", e.th, "of", e.threads, "filter", e.f, "ctx", e.c, "expected only", x, "observed", e.results>>)
   /\ Chk(e.simd = e.simd_expected, <<"SIMD switch seen by thread", e.th, "differs from the process-wide value">>)
+(* "agree" events: a long-lived compiled filter over MANDATORY fields was executed, in a history that moves between     *)
+(* contexts, also on contexts that leave mandatory fields unset (an execution that needs such a field panics; one that    *)
+(* decides earlier does not).  Whatever the outcome of (filter, context) is - true, false, panic - it is a function of   *)
+(* the pair: every execution in the history, on every thread, must show the outcome a fresh compilation showed on its    *)
+(* first execution ("repeated executions or recompilations of the same filter on the same context always agree").        *)
+CheckAgree(e) ==
+  Chk(e.seen = <<e.ref>>, <<"filter", e.src, "context", e.c, "a fresh compilation answers", e.ref, "the long-lived filter answered", e.seen>>)
 Init == l = 1 /\ nbad = 0
 Next == /\ l <= Len(Rec)
-        /\ nbad' = IF Check(Rec[l]) THEN nbad ELSE nbad + 1
+        /\ nbad' = IF (IF Rec[l].ev = "agree" THEN CheckAgree(Rec[l]) ELSE Check(Rec[l])) THEN nbad ELSE nbad + 1
         /\ l' = l + 1
 Spec == Init /\ [][Next]_vars
 Accepted == IF TLCGet("stats").diameter = Len(Rec) + 1 THEN PrintT(<<"TRACE-CONSUMED", Len(Rec)>>)
